@@ -695,8 +695,8 @@ func realDigest(r *rng, n int, sw *sweep) {
 		alg := []cose.Algorithm{cose.AlgorithmES256, cose.AlgorithmES384, cose.AlgorithmES512, cose.AlgorithmPS256, cose.AlgorithmPS384, cose.AlgorithmPS512}[r.intn(6)]
 		k := realKeyFor(alg, r)
 		var sk crypto.Signer = k.priv
-		if k.name == "ecdsa" && r.chance(1, 2) {
-			sk = wrapped{k.priv} // the crypto.Signer path (ASN.1 → fixed width)
+		if r.chance(1, 2) {
+			sk = wrapped{k.priv} // an opaque crypto.Signer (HSM-style): ASN.1 → fixed width for ECDSA, PSS options for RSA
 		}
 		s, err := cose.NewSigner(alg, sk)
 		v, err2 := cose.NewVerifier(alg, k.pub)
